@@ -89,6 +89,10 @@ func NewStore(ctx context.Context,
 		log.Info().Msg("Storage garbage collection routine not scheduled")
 	}
 
+	if verifhook.Enabled {
+		_ = verifhook.Point(ctx, "store.open", []byte(base), nil)
+	}
+
 	return &Store{
 		db:       db,
 		gcTicker: ticker,
